@@ -28,8 +28,8 @@ func init() {
 	Register(&Rule{ID: "R-REL-5", Props: []string{"C03", "C04"}, Floor: 9,
 		Doc: "set-operator dispatch: in selectSet and selectSetForRecursion, Union / Except / Intersect are called exactly under Operator == UNION / EXCEPT / INTERSECT, with all = NOT set.All.IsEmpty() (sibling agreement of the two switches)",
 		Run: ruleRel5})
-	Register(&Rule{ID: "R-REL-3", Props: []string{"C03"}, Floor: 2,
-		Doc: "recursive CTE: the recursive call of selectSetForRecursion is dominated by the LimitRecursion test and by the 'no new rows → return' exit, so the iteration stops on a fixpoint or at the limit",
+	Register(&Rule{ID: "R-REL-3", Props: []string{"C03"}, Floor: 3,
+		Doc: "recursive CTE: the recursive call of selectSetForRecursion is dominated by the LimitRecursion test and by the 'no new rows → return' exit, so the iteration stops on a fixpoint or at the limit; and that exit is the only way to stop with success — every return of a nil error other than the recursive call's own result lies behind the exit edge of a test that the step's result is empty (a shortcut on some other criterion, e.g. an unchanged row count, drops the rows reachable only through further steps)",
 		Run: ruleRel3})
 }
 
@@ -559,6 +559,72 @@ func ruleRel3(c *Ctx) {
 		}
 		c.Check(fix, c.KeyAt(fn, fmt.Sprintf("recursive call #%d: fixpoint exit", i+1)), c.Pos(call), "dominated by the 'no new rows' exit",
 			"the recursive call is not guarded by an exit taken when the last iteration produced no rows")
+		// (c) that exit is the only way to stop with success: every return of a nil error (other than the result of
+		// the recursive call itself) lies behind the exit edge of a 'no new rows' test. Any other success return ends
+		// the iteration on a criterion of its own (a row count that happens not to change, a flag …) and loses the rows
+		// that are reachable only through further steps.
+		var exits []*ssa.BasicBlock
+		for _, b := range fn.Blocks {
+			iff, ok := b.Instrs[len(b.Instrs)-1].(*ssa.If)
+			if !ok || !b.Dominates(call.Block()) {
+				continue
+			}
+			bo, ok := iff.Cond.(*ssa.BinOp)
+			if !ok {
+				continue
+			}
+			isStepLen := func(v ssa.Value) bool {
+				cc, ok := v.(*ssa.Call)
+				if !ok {
+					return false
+				}
+				n := c.P.CalleeName(cc)
+				if n != "lib/query.(*View).RecordLen" && n != "lib/query.(*View).Len" {
+					return false
+				}
+				// the length of the step's result (a view produced in this function), not of the accumulated view (a parameter)
+				for _, o := range core.Origins(cc.Common().Args[0], false) {
+					if _, isParam := o.(*ssa.Parameter); isParam {
+						return false
+					}
+				}
+				return true
+			}
+			zero := func(v ssa.Value) bool {
+				k, ok := core.ConstInt(v)
+				return ok && (k == 0 || k == 1)
+			}
+			if isStepLen(bo.X) && zero(bo.Y) || isStepLen(bo.Y) && zero(bo.X) {
+				for _, sc := range b.Succs {
+					if !core.RegionFrom(sc)[call.Block()] {
+						exits = append(exits, sc)
+					}
+				}
+			}
+		}
+		var stray []string
+		for _, r := range core.Returns(fn) {
+			if len(r.Results) == 0 {
+				continue
+			}
+			ev := r.Results[len(r.Results)-1]
+			if !core.IsNilConst(ev) {
+				continue // an error, or the result of the recursive call
+			}
+			behind := false
+			for _, e := range exits {
+				if e == r.Block() || e.Dominates(r.Block()) {
+					behind = true
+				}
+			}
+			if !behind {
+				stray = append(stray, c.Pos(r))
+			}
+		}
+		sort.Strings(stray)
+		c.Check(len(stray) == 0, c.KeyAt(fn, fmt.Sprintf("recursive call #%d: only the empty step ends the iteration", i+1)), c.Pos(call),
+			"every success return other than the recursive call's own result lies behind the 'no new rows' exit",
+			"success return(s) at "+strings.Join(stray, ", ")+" end the recursion on another criterion than 'the last step produced no rows': rows reachable only through further steps are missing from the recursive CTE")
 	}
 }
 
